@@ -103,6 +103,12 @@ pub fn check(c: &Case) -> Result<(), String> {
             }
         }
     }
+    // the same derivation again, now AFTER its neighbours (other id, other context, longer length) were derived on
+    // this thread: the result must not depend on the call history
+    match dry(c)? {
+        Some(again) if again == d => {}
+        other => return Err(format!("subkey(len={}, id={}) derived again after deriving its neighbours (id+1, context, length {}) on the same thread = {:?}, first time {}", c.len, c.id, c.len + 1, other.map(|o| hx(&o)), hx(&d))),
+    }
     Ok(())
 }
 
